@@ -209,3 +209,104 @@ Proof. vm_compute. reflexivity. Qed.
 Example run3_pipeline_twice :
   P15 GCrate true true (concat (P15 GCrate true true run3)) = P15 GCrate true true run3.
 Proof. apply pipeline_idem_from_regroup; [exact cmp15_asym|exact run3_regroup_hyp]. Qed.
+
+(* regroup_idem_module_partial / pipeline_idem_module_partial: plain flattened imports without
+   repetition; lists in the input, self in a list (std::io::{self, Read}), an alias after a module
+   path, a pub declaration, a declaration with attributes (#[..] use a::b::h;) and one with a nested
+   comment are inside the hypotheses *)
+Definition UV (v : N) (a : option N) (s : string) : tree :=
+  match U s with Node p k _ _ c => Node p k (Some v) a c end.
+Definition run4 : list tree :=
+  [U "std::io::{self, Read}"; U "a::b::c"; U "std::{io::Write, fmt}"; U "x"; U "a::b::{self, d}";
+   U "a::e as f"; UV 1 None "a::b::g"; UV 0 (Some 3%N) "a::b::h"; U "a::{b::{k}}"; U "a::{!b::m, n}";
+   U "y"; U "{self, z::w}"].
+Example run4_hyps :
+  forallb ast_shape run4 = true /\ forallb idem_ok run4 = true /\
+  forallb mod_plain (flat_list (map N15 run4)) = true /\ nodup_flat (flat_list (map N15 run4)) = true.
+Proof. vm_compute. repeat split. Qed.
+Example run4_module :
+  renders (S15 Module run4)
+  = ["use std::io::{self, Read, Write};"; "use a::b::{self, c, d, k};"; "use std::fmt;"; "use {self, x, y};";
+     "use a::e as f;"; "pub use a::b::g;"; "use a::b::h;"; "use a::{!b::m, n};"; "use z::w;"].
+Proof. vm_compute. reflexivity. Qed.
+Example run4_module_twice : S15 Module (S15 Module run4) = S15 Module run4.
+Proof.
+  apply (regroup_idem_module_partial cmp15 run4);
+    first [exact cmp15_asym|apply Permutation.Permutation_refl|vm_compute; reflexivity].
+Qed.
+Example run4_pipeline :
+  map renders (P15 Module true true run4)
+  = [["use std::fmt;"; "use std::io::{self, Read, Write};"];
+     ["pub use a::b::g;"; "use a::b::h;"; "use a::b::{self, c, d, k};"; "use a::e as f;";
+      "use a::{!b::m, n};"; "use z::w;"; "use {self, x, y};"]].
+Proof. vm_compute. reflexivity. Qed.
+Example run4_pipeline_twice :
+  forall grp reorder,
+  P15 Module grp reorder (concat (P15 Module grp reorder run4)) = P15 Module grp reorder run4.
+Proof.
+  intros grp reorder. apply pipeline_idem_module_partial;
+    first [exact cmp15_asym|vm_compute; reflexivity].
+Qed.
+(* the Module witness meets mod_plain: only nodup_flat fails on it *)
+Example w_dup_module_hyps :
+  forallb mod_plain (flat_list (map N15 w_dup_module)) = true /\
+  nodup_flat (flat_list (map N15 w_dup_module)) = false.
+Proof. exact dup_module_plain. Qed.
+(* what mod_plain excludes: a sole {self} list and a single-segment alias; the model is still stable on
+   them (observed, no theorem) *)
+Example mod_plain_excludes :
+  map (fun t => (render t, mod_plain t)) (flat_list (map N15 [U "a::{self}"; U "z as w"; U "a::{self, b}"]))
+  = [("use a::{self};", false); ("use z as w;", false); ("use a::self;", true); ("use a::b;", true)].
+Proof. vm_compute. reflexivity. Qed.
+Example module_self_observed :
+  let ts := [U "a::{self}"; U "a::x"; U "z as w"; U "z"; U "b::y"; U "b::{self}"] in
+  (renders (S15 Module ts), renders (S15 Module (S15 Module ts)))
+  = (["use a::{self, x};"; "use z as w;"; "use b::{y, {self}};"],
+     ["use a::{self, x};"; "use z as w;"; "use b::{y, {self}};"]).
+Proof. vm_compute. reflexivity. Qed.
+
+(* regroup_idem_passthrough / pipeline_idem_passthrough: #[..] use a::{c, b::self};  use a::{/*c*/ d, e};
+   #[..] pub use a::f;  use a::g; /*c*/  -- nothing is merged under Module, Crate, One *)
+Definition run5 : list tree :=
+  [UV 0 (Some 1%N) "a::{c, b::self}"; U "a::{!d, e}"; UV 1 (Some 2%N) "a::f"; U "!a::g"].
+Example run5_hyps :
+  forallb ast_shape run5 = true /\ forallb idem_ok run5 = true /\ forallb passthrough run5 = true.
+Proof. vm_compute. repeat split. Qed.
+Example run5_steps :
+  map (fun g => renders (S15 g run5)) [Module; GCrate; One]
+  = [["use a::{b, c};"; "use a::{!d, e};"; "pub use a::f;"; "use a::g;"];
+     ["use a::{b, c};"; "use a::{!d, e};"; "pub use a::f;"; "use a::g;"];
+     ["use a::{b, c};"; "use a::{!d, e};"; "pub use a::f;"; "use a::g;"]].
+Proof. vm_compute. reflexivity. Qed.
+Example run5_twice :
+  forall g grp reorder, merging g = true ->
+  P15 g grp reorder (concat (P15 g grp reorder run5)) = P15 g grp reorder run5.
+Proof.
+  intros g grp reorder Hg. apply pipeline_idem_pass;
+    first [exact cmp15_asym|exact Hg|vm_compute; reflexivity].
+Qed.
+
+(* Part 1 corollaries: a stable sort other than insertion sort (here: isort itself given as a black box)
+   and the reordering statement on a concrete list *)
+Example sort_perm_idem_instance :
+  V.C11.Ord.isort N.compare [3; 1; 2]%N = [1; 2; 3]%N /\
+  V.C11.Ord.isort N.compare [2; 3; 1]%N = V.C11.Ord.isort N.compare [3; 1; 2]%N.
+Proof. vm_compute. split; reflexivity. Qed.
+(* any_stable_sort_idem: its hypothesis is met by a sort given only through its three properties *)
+Example stable_sort_instance :
+  forall l : list N, V.C11.Ord.isort N.compare (V.C11.Ord.isort N.compare l) = V.C11.Ord.isort N.compare l.
+Proof.
+  apply (stable_sort_idem N N.compare (V.C11.Ord.isort N.compare) V.C11.Ord.N_compare_tp).
+  intros l. split; [apply V.C11.Ord.isort_perm|]. split.
+  - apply V.C11.Ord.isort_sorted. exact V.C11.Ord.N_compare_tp.
+  - apply V.C11.Ord.isort_stable. exact V.C11.Ord.N_compare_tp.
+Qed.
+(* sort_perm_idem on a reordering of the sorted output *)
+Example sort_perm_instance :
+  V.C11.Ord.isort N.compare [2; 3; 1]%N = V.C11.Ord.isort N.compare [3; 1; 2]%N.
+Proof.
+  apply (isort_perm_idem N N.compare V.C11.Ord.N_compare_tp [3; 1; 2]%N [2; 3; 1]%N).
+  - intros x y _ _ H. apply N.compare_eq_iff. exact H.
+  - vm_compute. apply Permutation.Permutation_sym.
+    apply (Permutation.Permutation_cons_append [2; 3]%N 1%N).
+Qed.
